@@ -47,6 +47,7 @@ fn spec_delta(b: &[u8], want: usize) -> Option<i32> {
 // @c01
 // @c20
 // @timeout 420
+// @playback-first
 #[cfg_attr(kani, kani::proof)]
 #[cfg_attr(kani, kani::unwind(5))]
 pub fn c10_read_dense_deltas_total() {
